@@ -117,7 +117,7 @@ CHECKS = {
     "C17": ("model_checking",
             "The trie is exported through the public iterator and TLC model-checks the whole graph (spec/Book.tla over "
             "layer R): every edge is a legal promotion-free move in the position its path reaches from the standard "
-            "start, every leaf is at depth 8, children stay inside the table; the implementation's own walk (move_new on "
+            "start, no path exceeds the termination bound, children stay inside the table; the implementation's own walk (move_new on "
             "every edge, assertion-enabled build) must reach the same position text at every node. Complete (29k nodes).",
             "explicit TLA+ spec + TLC model checking; impl walk compared node by node", "5/C17",
             "Trusted: TLC; layer R; node identity = Debug text of BookMoves; unreachable table indices are out of scope."),
